@@ -64,7 +64,7 @@ def default_graph_cases(ctx, n):
     cases += core[1].sample(ctx.rng, per)
     for sp in rest:
         cases += sp.sample(ctx.rng, per)
-    cases = [c for c in cases if c.get("method") != "blockwise" and c["func"] not in ("first", "last")]
+    cases = [c for c in cases if not (c.get("method") == "blockwise" and c.get("by_dask"))]
     for i, c in enumerate(cases):
         c["order_seed"] = (ctx.seed * 7919 + i) % 1000
     return cases
